@@ -193,7 +193,10 @@ func (n *node) post(path string, headers map[string]string, body []byte) (int, s
 	for k, v := range headers {
 		ctx.Request.Header.Set(k, v)
 	}
-	ctx.Request.SetBody(body)
+	// exact-capacity private copy: nothing stale behind the body, no pooled buffer
+	own := make([]byte, len(body))
+	copy(own, body)
+	ctx.Request.SetBodyRaw(own)
 	n.handler(&ctx)
 	return ctx.Response.StatusCode(), string(ctx.Response.Body())
 }
